@@ -722,7 +722,8 @@ class Type3Tag(nfc.tag.Tag):
         else:
             if type(error) is nfc.clf.TimeoutError:
                 raise Type3TagCommandError(nfc.tag.TIMEOUT_ERROR)
-            if type(error) is nfc.clf.TransmissionError:
+            if type(error) in (nfc.clf.TransmissionError,
+                               nfc.clf.BrokenLinkError):
                 raise Type3TagCommandError(nfc.tag.RECEIVE_ERROR)
             if type(error) is nfc.clf.ProtocolError:  # pragma: no branch
                 raise Type3TagCommandError(nfc.tag.PROTOCOL_ERROR)
